@@ -199,12 +199,13 @@ def star_body(units, n_in, want, shared_number=False, two_pars_one_pair=False, s
     return body
 
 
-def timed_body(n, want, n2=None, with_timed_in=True, with_ordinary_out=True, with_timed_out=True, n_plain_in=1):
+def timed_body(n, want, n2=None, with_timed_in=True, with_ordinary_out=True, with_timed_out=True, n_plain_in=1, timed_in_rows=None):
     """
     TimedCompartment tc (n rows) with flush link, an ordinary (rate) out-link, a duration-preserving TimedLink to tc2 (n2 rows)
     in the same group, a TimedLink inflow from tc0 (same group, n rows) and plain inflows from source compartments.
     """
     n2 = n if n2 is None else n2
+    in_rows = list(timed_in_rows) if timed_in_rows is not None else ([n] if with_timed_in else [])  # keyring sizes of the TimedLink sources
 
     def body(env):
         import atomica.model as am
@@ -241,15 +242,15 @@ def timed_body(n, want, n2=None, with_timed_in=True, with_ordinary_out=True, wit
             pt = _par(am, pop, "pt", "probability", env.real("Tt", TS_LO, TS_HI))
             vt = env.real("vt", -VMAX, VMAX)
             tc.connect(tc2, pt)
-        tc0 = None
-        if with_timed_in:
-            tc0 = pop.add_comp(am.TimedCompartment(pop, "tc0", dur))
-            d0 = pop.add_comp(am.Compartment(pop, "d0"))
+        pis = []
+        for k0, nk in enumerate(in_rows):
+            sfx = "" if k0 == 0 else "_%d" % k0
+            tc0 = pop.add_comp(am.TimedCompartment(pop, "tc0" + sfx, dur))
+            d0 = pop.add_comp(am.Compartment(pop, "d0" + sfx))
             tc0.connect(d0, dur)
-            tc0r = rows("tc0", n)
-            set_rows(tc0, tc0r)
-            pi = _par(am, pop, "pi", "probability", env.real("Ti", TS_LO, TS_HI))
-            vi = env.real("vi", 0, VMAX)
+            set_rows(tc0, rows("tc0" + sfx, nk))
+            pi = _par(am, pop, "pi" + sfx, "probability", env.real("Ti" + sfx, TS_LO, TS_HI))
+            pis.append((pi, env.real("vi" + sfx, 0, VMAX)))
             tc0.connect(tc, pi)
         srcs = []
         for j in range(n_plain_in):
@@ -266,7 +267,7 @@ def timed_body(n, want, n2=None, with_timed_in=True, with_ordinary_out=True, wit
             po.vals[0] = vo
         if with_timed_out:
             pt.vals[0] = vt
-        if with_timed_in:
+        for pi, vi in pis:
             pi.vals[0] = vi
         for s, q, v in srcs:
             q.vals[0] = v
@@ -330,13 +331,18 @@ def timed_body(n, want, n2=None, with_timed_in=True, with_ordinary_out=True, wit
                 for l in tl_in:
                     if l._vals.shape[0] > r + 1:
                         tin = tin + l._vals[r + 1, 0]
+                    if r + 1 == n - 1:
+                        # a source with a longer keyring: its surplus rows enter the newest row of this compartment
+                        for rr in range(n, l._vals.shape[0]):
+                            tin = tin + l._vals[rr, 0]
                 env.claim("C05_shift_row_%d" % r, env.eq(tc._vals[r, 1], tcr[r + 1] - row_out(r + 1) - ord_row[r + 1] + tin), key="shift")
             if n > 1:
                 env.claim("C05_new_arrivals_in_last_row", env.eq(tc._vals[n - 1, 1], plain_in), key="last_row")
             else:
                 tin = 0.0
                 for l in tl_in:
-                    tin = tin + l._vals[0, 0]
+                    for rr in range(l._vals.shape[0]):
+                        tin = tin + l._vals[rr, 0]
                 # single row: flushed entirely, then holds the arrivals of this step only
                 env.claim("C05_single_row_empties_every_step", env.eq(tc._vals[0, 1], plain_in + tin), key="single_row")
             # duration-preserving move keeps the row index; mismatched lengths are resolved by the destination
@@ -721,7 +727,7 @@ def kernel_specs(prop, tier):
             nm = "star[%s;in=%d%s]" % (",".join(u[:4] for u in units), n_in, "".join(";" + k for k in kw))
             specs.append((nm, star_body, dict(units=units, n_in=n_in, **kw), dict(kind="ordinary compartment star", out_units=units, inflows=n_in, **kw)))
     if prop in ("C01", "C02", "C03", "C05"):
-        timed = [(1, {}), (2, {}), (3, {}), (2, dict(n2=3)), (3, dict(n2=2)), (2, dict(with_ordinary_out=False)), (3, dict(with_timed_in=False, n_plain_in=2)), (2, dict(with_timed_out=False))]
+        timed = [(1, {}), (2, {}), (3, {}), (2, dict(n2=3)), (3, dict(n2=2)), (2, dict(with_ordinary_out=False)), (3, dict(with_timed_in=False, n_plain_in=2)), (2, dict(with_timed_out=False)), (2, dict(timed_in_rows=(3, 4, 2), with_timed_out=False)), (1, dict(timed_in_rows=(2, 3), with_timed_out=False))]
         if not q:
             timed += [(4, {}), (4, dict(n2=2)), (2, dict(n2=4)), (1, dict(n2=3)), (3, dict(n2=1)), (4, dict(with_ordinary_out=False)), (5, dict(with_timed_in=False))]
         for n, kw in timed:
